@@ -254,6 +254,7 @@ pub fn run_case(lines: &[String], out: &mut String) {
                     }
                 };
                 verif_hook::set_masks(&masks);
+                let mem_base = crate::mem::start();
                 let res: Result<String, Box<dyn std::any::Any + Send>> =
                     catch_unwind(AssertUnwindSafe(|| match body[0] {
                         "read" => match w.read() {
@@ -277,7 +278,22 @@ pub fn run_case(lines: &[String], out: &mut String) {
                     }));
                 let used = masks.len() - verif_hook::remaining().min(masks.len());
                 verif_hook::set_masks(&[]);
+                let mem_peak = crate::mem::peak_since(mem_base);
                 let (io, wire) = w.get_mut().take_log();
+                // C06: with finite limits a read may not allocate more than a small multiple of the
+                // limits plus the read buffer (plus what this harness itself logs for the delivered bytes)
+                if body[0] == "read" {
+                    if let Some(c) = cfg.as_ref() {
+                        if let (Some(mf), Some(mm)) = (c.config.max_frame_size, c.config.max_message_size) {
+                            if mf <= (1 << 24) && mm <= (1 << 26) {
+                                let bound = 4 * (mf + mm) + c.config.read_buffer_size + 65536 + 8 * io.len();
+                                if mem_peak > bound {
+                                    out.push_str(&format!("memviol peak={mem_peak} bound={bound}\n"));
+                                }
+                            }
+                        }
+                    }
+                }
                 out.push_str(&format!("io {io}\n"));
                 match res {
                     Ok(s) => out.push_str(&format!("res {s}\n")),
